@@ -254,6 +254,9 @@ func Check(c Case) error {
 				}) {
 					continue
 				}
+				if known.RE2IgnoreCaseNotWord("c01-re2-ignorecase-notword", c.AST, c.RE2, string(in)) {
+					continue
+				}
 				return fail(c, in, at, fmt.Sprintf("engine %s, reference %s", got, exp))
 			}
 		}
